@@ -754,7 +754,66 @@ def r1613(ctx, impls):
         raise AnalysisError(f"R-16.13: only {n} modify_velocities implementations with a settings parameter found")
 
 
+def r1616(ctx):
+    """read_gromos96_file returns its section table with *every* section key present (the table is
+    created with all keys and never loses one): an absent section is an empty list. A caller that asks
+    `"VELOCITY" in txt` / `not in txt` therefore asks a constant question - the fix-up that gives a
+    velocity-less frame its atom labels (`txt["VELOCITY"] = txt["POSITION"]`) must hang on the
+    emptiness of the section, or the regenerated velocities are written into an empty block."""
+    rid = "R-16.16"
+    tree = ctx.tree
+    rd = tree.func(GROMACS, "read_gromos96_file")
+    # the table: a dict literal with constant keys bound to the name that is element 0 of the returned tuple
+    rets = [r for r in walk_local(rd) if isinstance(r, ast.Return) and isinstance(r.value, ast.Tuple) and r.value.elts and isinstance(r.value.elts[0], ast.Name)]
+    if not rets:
+        raise AnalysisError("R-16.16: read_gromos96_file does not return (table, ...)")
+    tname = rets[0].value.elts[0].id
+    lits = [st for st in walk_local(rd) if isinstance(st, (ast.Assign, ast.AnnAssign)) and any(isinstance(t, ast.Name) and t.id == tname for t in (st.targets if isinstance(st, ast.Assign) else [st.target])) and isinstance(st.value, ast.Dict)]
+    if len(lits) != 1 or not all(isinstance(k, ast.Constant) and isinstance(k.value, str) for k in lits[0].value.keys):
+        raise AnalysisError("R-16.16: the section table of read_gromos96_file is not one dict literal with constant keys (cannot decide)")
+    keys = {k.value for k in lits[0].value.keys}
+    loses = [c for c in walk_local(rd) if (isinstance(c, ast.Call) and isinstance(c.func, ast.Attribute) and c.func.attr in ("pop", "popitem", "clear") and path_of(c.func.value) == tname) or (isinstance(c, ast.Delete) and any(tname in ast.unparse(t) for t in c.targets))]
+    if loses:
+        raise AnalysisError("R-16.16: read_gromos96_file removes keys from its section table (cannot decide)")
+    n = 0
+    for m, q, f in tree.all_funcs([GROMACS]):
+        fl = None
+        for cmp_ in [x for x in walk_local(f) if isinstance(x, ast.Compare) and len(x.ops) == 1 and isinstance(x.ops[0], (ast.In, ast.NotIn)) and isinstance(x.left, ast.Constant) and isinstance(x.left.value, str) and isinstance(x.comparators[0], ast.Name)]:
+            fl = fl or flow_of(f)
+            nm = cmp_.comparators[0]
+            try:
+                at = fl.cfg.node_of(cmp_)
+            except AnalysisError:
+                continue
+            defs = fl.rd(nm.id, at)
+            from_reader = [d for d, sfx in defs if d.kind == "unpack" and tuple(d.index) == (0,) and isinstance(d.value, ast.Call) and last_name(d.value) == "read_gromos96_file"]
+            if not from_reader or len(from_reader) != len(defs):
+                continue
+            n += 1
+            if cmp_.left.value in keys:
+                ctx.bad(rid, cmp_, f"{q}: `{short(cmp_, 40)}` tests the presence of a key that read_gromos96_file always provides (sections {sorted(keys)}; an absent section is an empty list): the test is constant, so the branch it guards "
+                        + ("never runs" if isinstance(cmp_.ops[0], ast.NotIn) else "always runs") + " - for a frame without velocity lines the VELOCITY block keeps no atom labels, write_gromos96_file writes it empty and the regenerated velocities are dropped while kin_new / system.ekin report them",
+                        construct=f"{q}: constant key-presence test {short(cmp_, 40)}")
+            else:
+                ctx.ok(rid, cmp_, f"{q}: key {cmp_.left.value!r} is not one the reader always provides")
+    # the fix-up itself: guarded by the emptiness of the section
+    mv = tree.func(GROMACS, "GromacsEngine.modify_velocities")
+    fl = flow_of(mv)
+    fix = [st for st in walk_local(mv) if isinstance(st, ast.Assign) and isinstance(st.targets[0], ast.Subscript) and isinstance(st.targets[0].slice, ast.Constant) and st.targets[0].slice.value == "VELOCITY" and "POSITION" in ast.unparse(st.value)]
+    for st in fix:
+        n += 1
+        g = [(ast.unparse(e), t) for e, t, bn in fl.cfg.guards(fl.cfg.node_of(st))]
+        if any(("['VELOCITY']" in x or '["VELOCITY"]' in x) and " in " not in x and not t for x, t in g) or any(x.startswith("len(") and "VELOCITY" in x for x, t in g):
+            ctx.ok(rid, st, "modify_velocities: the label fix-up of the VELOCITY section runs exactly when that section is empty")
+        else:
+            ctx.bad(rid, st, f"modify_velocities: the label fix-up `{short(st, 50)}` is not guarded by the emptiness of the VELOCITY section (guards: {g})", construct="modify_velocities: VELOCITY label fix-up guard")
+    if n == 0:
+        raise AnalysisError("R-16.16: neither a key test on the section table nor the VELOCITY label fix-up found")
+
+
 def run(ctx):
+    ctx.rule("R-16.16", "GROMACS: a frame without velocity lines still gets its regenerated velocities written - the label fix-up of the VELOCITY section hangs on the emptiness of the section, not on a key that the reader always provides", floor=1)
+    ctx.attempt(r1616, ctx)
     ctx.rule("R-16.1", "positions, box and identities written are exactly those read from the dumped frame; only velocities are regenerated", floor=14)
     ctx.rule("R-16.2", "the regenerated frame goes to a fresh file under exe_dir; system.config re-pointed; caller passes a copy", floor=10)
     ctx.rule("R-16.3", "momentum reset under zero_momentum between draw and write (external gmx refuses False)", floor=5)
@@ -813,6 +872,8 @@ def run(ctx):
 
 
 VARIANTS = [
+    B("c16-gromacs-velocity-section-tested-by-key", GROMACS, "            if not txt[\"VELOCITY\"]:", "            if \"VELOCITY\" not in txt:", "R-16.16", control=True, why="seeded C16_p"),
+    K("c16-keep-gromacs-velocity-section-tested-by-length", GROMACS, "            if not txt[\"VELOCITY\"]:", "            if len(txt[\"VELOCITY\"]) == 0:"),
     B("c16-box-matrix-flattened-transposed", "infretis/classes/engines/engineparts.py", "            matrix[0, 1],\n            matrix[0, 2],\n            matrix[1, 0],\n            matrix[1, 2],\n            matrix[2, 0],\n            matrix[2, 1],\n", "            matrix[1, 0],\n            matrix[2, 0],\n            matrix[0, 1],\n            matrix[2, 1],\n            matrix[0, 2],\n            matrix[1, 2],\n", "R-16.15", control=True, why="seeded C16_o"),
     B("c16-lammps-positions-through-the-shifting-reader", LAMMPS, "        id_type, xyz, vel, box = read_lammpstrj(pos, 0, self.n_atoms)\n        kin_old", "        id_type, _, _, box = read_lammpstrj(pos, 0, self.n_atoms)\n        xyz, vel, _, _ = self._read_configuration(pos)\n        kin_old", "R-16.1", control=True, why="seeded C16_n"),
     K("c16-keep-lammps-frame-read-into-a-tuple", LAMMPS, "        id_type, xyz, vel, box = read_lammpstrj(pos, 0, self.n_atoms)\n        kin_old", "        frame = read_lammpstrj(pos, 0, self.n_atoms)\n        id_type, xyz, vel, box = frame\n        kin_old"),
